@@ -35,7 +35,11 @@ type execSpec struct {
 type history struct {
 	Name   string
 	Stream bool
-	Groups [][]execSpec // groups run back to back; calls inside a group run concurrently
+	// CloseEarly: every Execute of the (single) group runs in a thread of its own and Close is called as soon as the
+	// peer has received all work-starts - while the runs are pending. A correct peer still answers them, so every
+	// Execute must still return its own result.
+	CloseEarly bool
+	Groups     [][]execSpec // groups run back to back; calls inside a group run concurrently
 }
 
 func e(id string) execSpec { return execSpec{RunID: id} }
@@ -57,6 +61,8 @@ func histories(tier string) []history {
 		{Name: "2-concurrent-same-id", Groups: [][]execSpec{{e("r1"), e("r1")}}},
 		{Name: "2-serial-same-id", Groups: [][]execSpec{{e("r1")}, {e("r1")}}},
 		{Name: "2-concurrent-unattributed-fatal-then-1", Groups: [][]execSpec{{{RunID: "r1", StepFatal: true, Unattributed: true}, e("r2")}, {e("r3")}}},
+		{Name: "2-concurrent-close-while-pending", CloseEarly: true, Groups: [][]execSpec{{e("r1"), e("r2")}}},
+		{Name: "1-exec-signal-from-step-close-while-pending", CloseEarly: true, Groups: [][]execSpec{{{RunID: "r1", FromStep: 1, WantFrom: true}}}},
 		{Name: "3-serial", Groups: [][]execSpec{{e("r1")}, {e("r2")}, {e("r3")}}},
 		{Name: "2-concurrent-then-1", Groups: [][]execSpec{{e("r1"), e("r2")}, {e("r3")}}},
 		{Name: "1-then-2-concurrent", Groups: [][]execSpec{{e("r1")}, {e("r2"), e("r3")}}},
@@ -109,6 +115,17 @@ func body(h history) func() {
 			o.schemaErr = err
 			return
 		}
+		var started mcrt.WaitGroup
+		if h.CloseEarly {
+			pending := len(h.Groups[0])
+			started.Add(1)
+			peer.OnWorkStart = func(string) {
+				pending--
+				if pending == 0 {
+					started.Done()
+				}
+			}
+		}
 		for _, g := range h.Groups {
 			var wg mcrt.WaitGroup
 			for _, x := range g {
@@ -147,17 +164,24 @@ func body(h history) func() {
 						}
 					}
 				}
-				if len(g) == 1 {
+				if len(g) == 1 && !h.CloseEarly {
 					run()
 				} else {
 					wg.Add(1)
 					mcrt.GoNamed("exec-"+x.RunID, func() { defer wg.Done(); run() })
 				}
 			}
+			if h.CloseEarly {
+				started.Wait()
+				o.closeErr = cli.Close()
+				o.closed = true
+			}
 			wg.Wait()
 		}
-		o.closeErr = cli.Close()
-		o.closed = true
+		if !h.CloseEarly {
+			o.closeErr = cli.Close()
+			o.closed = true
+		}
 		// The engine is done with the plugin and lets go of the pipe: what the peer still has to say (a message for a
 		// run whose caller was already failed by an unattributed error) fails at once instead of waiting for a reader.
 		_ = s2c.Reader().Close()
